@@ -473,12 +473,13 @@ impl Family for Literals {
         &["C11"]
     }
     fn rule(&self) -> &'static str {
-        "string literal spellings: every escape the lexer accepts alone and in every ordered pair; multi-line strings of 2-3 lines over {empty, quote, backslash, spaces, non-ASCII}; the AST value and the text printed by the compiled program (through the Go model) must equal the denoted characters; distinct = distinct literal spellings"
+        "string literal spellings: every escape the lexer accepts alone and in every ordered pair; multi-line strings of 2-3 lines over {empty, quote, backslash, spaces, non-ASCII}, each also in a file with CR LF line ends (as are the single escapes); the AST value and the text printed by the compiled program (through the Go model) must equal the denoted characters; distinct = distinct literal spellings"
     }
     fn cases(&self, _tier: Tier) -> Box<dyn Iterator<Item = Value> + '_> {
         let mut v = Vec::new();
         for i in 0..ESCAPES.len() {
             v.push(json!({"kind": "str", "parts": [i]}));
+            v.push(json!({"kind": "str", "parts": [i], "crlf": true}));
             for j in 0..ESCAPES.len() {
                 v.push(json!({"kind": "str", "parts": [i, j]}));
             }
@@ -487,9 +488,12 @@ impl Family for Literals {
         for a in 0..lines.len() {
             for b in 0..lines.len() {
                 v.push(json!({"kind": "multi", "lines": [lines[a], lines[b]]}));
+                // the same file with CR LF line ends: the line end is not part of a line's characters
+                v.push(json!({"kind": "multi", "lines": [lines[a], lines[b]], "crlf": true}));
                 if a == b {
                     for c in 0..lines.len() {
                         v.push(json!({"kind": "multi", "lines": [lines[a], lines[b], lines[c]]}));
+                        v.push(json!({"kind": "multi", "lines": [lines[a], lines[b], lines[c]], "crlf": true}));
                     }
                 }
             }
@@ -514,6 +518,9 @@ impl Family for Literals {
         } else {
             format!("fn main() {{\n    let r = {}\n    ;\n    string_println(r)\n}}\n", lit)
         };
+        let crlf = case["crlf"].as_bool().unwrap_or(false);
+        let text = if crlf { text.replace('\n', "\r\n") } else { text };
+        let site = if crlf { format!("{};crlf", site) } else { site };
         rep.nontrivial_key = Some(text.clone());
         let replay = json!({"kind": "literal", "text": text, "denoted": denoted});
         match parse_let_value(&text) {
